@@ -210,6 +210,7 @@ def run(prog: Program, rep, tier="quick"):
     rep.rule("R03.4", "no panic on input-derived data in the Rust crates (unwrap on extract, unbounded shift, i32 midpoint)")
     rep.rule("R03.5", "TABLE-AGREE: encoder constants of the Python and Rust encoders")
     rep.rule("R03.6", "empty payload for non-blob delta results is rejected at ingestion")
+    rep.rule("R03.8", "decoder format constants: size header ends on a clear continuation bit; copy size 0 means 0x10000")
     rep.rule("R03.7", "Python decoder tests the running output length against the declared size before each append")
     rep.not_decided += ["apply(create(b, t), b) == t", "equality of outputs across encoder/decoder pairs"]
     m = prog.module(PACK)
@@ -417,6 +418,25 @@ def run(prog: Program, rep, tier="quick"):
     rep.ob("R03.6", PACK, ro.qual, f"whether there is a base ({', '.join(bp)}) is decided by `is None`, not by truthiness", bool(bp) and bool(ident) and not truthy,
            "an empty base (the empty blob as delta base, e.g. of a thin pack) is taken for 'no base': the delta is not applied", 
            truthy[0].lineno if truthy else ro.node.lineno)
+    # ---- R03.8 format constants of the decoder: a size header ends only on a byte whose continuation bit is clear (running out
+    # of input with the bit set is a truncated delta), and a copy size of zero - however it came about - means 0x10000
+    hs = m.funcs.get("apply_delta.<locals>.get_delta_header_size")
+    if hs is None:
+        raise AnalysisError("apply_delta.<locals>.get_delta_header_size not found")
+    gh = cfg_of(prog, hs)
+    cont = {i for i, n in gh.nodes.items() if n.kind == "test" and isinstance(n.ast, ast.BinOp) and isinstance(n.ast.op, ast.BitAnd) and F.try_fold(n.ast.right) == 0x80}
+    rets_h = [i for i, n in gh.nodes.items() if n.kind == "stmt" and isinstance(n.ast, ast.Return)]
+    r_h = reach(gh, [gh.entry], include_srcs=True, edge_ok=lambda a, b, l: not (a in cont and l == "false"))
+    rep.ob("R03.8", PACK, hs.qual, "the size header ends only on a byte with the continuation bit clear", bool(cont) and bool(rets_h) and not any(x in r_h for x in rets_h),
+           "the loop can end while the last byte read still has its continuation bit set (end of input): a delta truncated inside a size "
+           "header is accepted with a partial size instead of being rejected", hs.node.lineno)
+    zero_sz = [x for x in ast.walk(ad.node) if isinstance(x, ast.If) and var_cmp(x.test, F) is not None and "size" in norm(var_cmp(x.test, F)[0])
+               and same_int_test(var_cmp(x.test, F)[1], var_cmp(x.test, F)[2], "==", 0)]
+    vals = [F.try_fold(s_.value) for x in zero_sz for s_ in x.body if isinstance(s_, ast.Assign)]
+    rs_txt = rf.fns["apply_delta"].text() if "apply_delta" in rf.fns else ""
+    rep.ob("R03.8", PACK, "apply_delta", "a copy size of zero means 0x10000 (both decoders)", vals == [0x10000] and ("0x10000" in rs_txt or "65536" in rs_txt),
+           f"python: `if <size> == 0` assigns {vals}; rust mentions 0x10000: {'0x10000' in rs_txt or '65536' in rs_txt}: git writes 64 KiB copies with "
+           f"the size bytes left out (and a decoder must also read explicit zero size bytes that way)", zero_sz[0].lineno if zero_sz else ad.node.lineno)
     # ---- R03.7
     g = cfg_of(prog, ad)
     appends = [i for i, n in g.nodes.items() for c in node_calls(n) if dotted(c.func) == "out.append"]
